@@ -13,6 +13,7 @@ import (
 	"math/rand"
 	"os"
 	"sort"
+	"strings"
 	"sync"
 	"sync/atomic"
 	"time"
@@ -85,6 +86,10 @@ type fakeDir struct {
 	running map[string]int
 	maxFill int
 	results chan fillResult
+	// failing: the scripted failure of a group's listing lasts until the harness starts the next step that lists it.
+	// A fill function that tries again inside the same Update (a retry is not a second fill running at the same time)
+	// meets the same failure, ungated and unannounced.
+	failing map[string]bool
 }
 
 type fillResult struct {
@@ -95,7 +100,7 @@ type fillResult struct {
 
 func newFakeDir() *fakeDir {
 	return &fakeDir{exists: map[string]bool{}, members: map[string][]string{}, started: make(chan string, 64),
-		release: map[string]chan bool{}, running: map[string]int{}, results: make(chan fillResult, 64)}
+		release: map[string]chan bool{}, running: map[string]int{}, results: make(chan fillResult, 64), failing: map[string]bool{}}
 }
 
 func email(u string) string { return u + "@example.com" }
@@ -107,6 +112,11 @@ func (d *fakeDir) ListMemberships(group string, depth int) ([]string, error) {
 	if d.running[group] > d.maxFill {
 		d.maxFill = d.running[group]
 	}
+	if d.failing[group] && d.running[group] == 1 {
+		d.running[group]--
+		d.mu.Unlock()
+		return nil, errors.New("scripted directory failure (still failing)")
+	}
 	ch := make(chan bool, 1)
 	d.release[group] = ch
 	d.mu.Unlock()
@@ -117,6 +127,7 @@ func (d *fakeDir) ListMemberships(group string, depth int) ([]string, error) {
 	d.running[group]--
 	switch {
 	case fail:
+		d.failing[group] = true
 		d.results <- fillResult{group, "err", nil}
 		return nil, errors.New("scripted directory failure")
 	case !d.exists[group]:
@@ -152,6 +163,12 @@ func (d *fakeDir) CheckMemberships(gs []string, user string) ([]string, error) {
 	return out, nil
 }
 
+func (d *fakeDir) clearFailing() {
+	d.mu.Lock()
+	d.failing = map[string]bool{}
+	d.mu.Unlock()
+}
+
 func sorted(s []string) []string {
 	out := append([]string{}, s...)
 	sort.Strings(out)
@@ -184,6 +201,22 @@ func newFillRig() *fillRig {
 	r.fc.VerifSetMaxJitter(1)
 	r.p.GroupsCache = r.fc
 	return r
+}
+
+func (r *fillRig) settle() {
+	key := func() string {
+		s := r.fc.VerifSnapshot()
+		return strings.Join(sorted(s.Loops), ",") + "|" + strings.Join(sorted(s.Inflight), ",")
+	}
+	prev, same := key(), 0
+	for i := 0; i < 60 && same < 3; i++ {
+		time.Sleep(time.Millisecond)
+		if k := key(); k == prev {
+			same++
+		} else {
+			prev, same = k, 0
+		}
+	}
 }
 
 func (r *fillRig) snap(ln *Line) {
@@ -249,6 +282,9 @@ func ReplayFill(base int, evs []Ev, rnd *rand.Rand) ([]Line, error) {
 	for i, e := range evs {
 		ln := blank(e.Op, base+i+1)
 		ln.T, ln.G, ln.U = e.T, e.Grp, e.U
+		if e.Op != "end" {
+			r.d.clearFailing() // a scripted failure lasts until the Update it failed has returned
+		}
 		switch e.Op {
 		case "dir":
 			r.d.mu.Lock()
@@ -381,6 +417,9 @@ func ReplayFill(base int, evs []Ev, rnd *rand.Rand) ([]Line, error) {
 			case <-time.After(stepWait):
 				ln.Note = "the question was not answered (the call did not return)"
 			}
+			// what the question set in motion (refresh loops for the groups it found uncached) may be started from a
+			// goroutine of its own: the replay goes on when the loop set and the in-flight set have stopped moving
+			r.settle()
 		case "get":
 			type getRes struct {
 				ms groups.MemberSet
